@@ -387,13 +387,37 @@ func ParseMsg(s string) pb.Message {
 	return m
 }
 
-func fmtMsgs(ms []pb.Message) string {
-	var s []string
-	for _, m := range ms {
-		s = append(s, FmtMsg(m))
+// msgGroup classifies message types so that each property compares only the
+// messages it is about.
+func msgGroup(t pb.MessageType) int {
+	switch t {
+	case pb.RequestVote, pb.RequestVoteResp, pb.RequestPreVote, pb.RequestPreVoteResp, pb.TimeoutNow:
+		return 0
+	case pb.Replicate, pb.ReplicateResp, pb.InstallSnapshot:
+		return 1
+	case pb.Heartbeat, pb.HeartbeatResp:
+		return 2
+	case pb.ReadIndex, pb.ReadIndexResp:
+		return 3
 	}
-	sort.Strings(s)
-	return "[" + strings.Join(s, ",") + "]"
+	return 4
+}
+
+var msgGroupNames = []string{"mvote", "mrepl", "mhb", "mread", "mother"}
+
+func fmtMsgs(ms []pb.Message) string {
+	var out []string
+	for g, name := range msgGroupNames {
+		var s []string
+		for _, m := range ms {
+			if msgGroup(m.Type) == g {
+				s = append(s, FmtMsg(m))
+			}
+		}
+		sort.Strings(s)
+		out = append(out, name+"=["+strings.Join(s, ",")+"]")
+	}
+	return strings.Join(out, " ")
 }
 
 func must(err error) {
@@ -437,7 +461,7 @@ func Project(n *Node) string {
 		rds = append(rds, fmt.Sprintf("%d:%d:%d:%d:%s", r.Low, r.High, r.Index, r.From, joinIDs(r.Confirmed)))
 	}
 	fmt.Fprintf(&b, " reads=[%s]", strings.Join(rds, ","))
-	fmt.Fprintf(&b, " msgs=%s", fmtMsgs(s.Msgs))
+	fmt.Fprintf(&b, " %s", fmtMsgs(s.Msgs))
 	var rr []string
 	for _, r := range s.ReadyToRead {
 		rr = append(rr, fmt.Sprintf("%d:%d:%d", r.Index, r.SystemCtx.Low, r.SystemCtx.High))
@@ -483,6 +507,7 @@ func fmtUpdate(ud pb.Update) string {
 type Result struct {
 	Obs      string
 	Panicked bool
+	PanicMsg string
 	Update   *pb.Update // for U ops
 	Node     *Node
 }
@@ -520,10 +545,14 @@ func (c *Cluster) Exec(op string, rt uint64, force bool) (res Result) {
 				must(n.Peer.ProposeConfigChange(MakeCC(u(3), u(4)), u(2)))
 			case "ACC":
 				must(n.Peer.ApplyConfigChange(pb.ConfigChange{Type: pb.ConfigChangeType(u(2)), ReplicaID: u(3)}))
+				n.Mem.Apply(pb.ConfigChangeType(u(2)), u(3))
 			case "RCC":
 				must(n.Peer.RejectConfigChange())
 			case "NLA":
 				n.Applied = u(2)
+				for len(n.Queue) > 0 && n.Queue[0].Index <= n.Applied {
+					n.Queue = n.Queue[1:]
+				}
 				n.Peer.NotifyRaftLastApplied(u(2))
 			case "R":
 				must(n.Peer.ReadIndex(pb.SystemCtx{Low: u(2), High: u(3)}))
@@ -534,7 +563,10 @@ func (c *Cluster) Exec(op string, rt uint64, force bool) (res Result) {
 			case "SS":
 				must(n.Peer.ReportSnapshotStatus(u(2), u(3) == 1))
 			case "RR":
-				must(n.Peer.RestoreRemotes(parseSnapshot(f[2])))
+				ss := parseSnapshot(f[2])
+				must(n.Peer.RestoreRemotes(ss))
+				n.Queue = nil
+				n.Mem = MembershipOf(ss)
 			case "SNAP": // SNAP id snapshot compactTo
 				ss := parseSnapshot(f[2])
 				if err := n.LR.CreateSnapshot(ss); err != nil && err != rs.ErrSnapshotOutOfDate {
@@ -578,6 +610,7 @@ func (c *Cluster) Exec(op string, rt uint64, force bool) (res Result) {
 				}
 				must(n.LR.Append(x.EntriesToSave))
 				n.Peer.Commit(x)
+				n.Queue = append(n.Queue, x.CommittedEntries...)
 			default:
 				panic("unknown op " + f[0])
 			}
@@ -586,6 +619,7 @@ func (c *Cluster) Exec(op string, rt uint64, force bool) (res Result) {
 	res.Node = n
 	if p != "" {
 		res.Panicked = true
+		res.PanicMsg = p
 		res.Obs = "PANIC"
 		return
 	}
@@ -599,6 +633,30 @@ func (c *Cluster) Exec(op string, rt uint64, force bool) (res Result) {
 	}
 	return
 }
+
+// MembershipOf converts a snapshot's membership.
+func MembershipOf(ss pb.Snapshot) Membership {
+	m := newMembership()
+	for k := range ss.Membership.Addresses {
+		m.Voters[k] = true
+	}
+	for k := range ss.Membership.NonVotings {
+		m.NonVotings[k] = true
+	}
+	for k := range ss.Membership.Witnesses {
+		m.Witnesses[k] = true
+	}
+	for k := range ss.Membership.Removed {
+		m.Removed[k] = true
+	}
+	return m
+}
+
+// FmtSnapshot is the text form of a snapshot.
+func FmtSnapshot(ss pb.Snapshot) string { return fmtSnapshot(ss) }
+
+// SetRT forces the randomized election timeout of n.
+func (c *Cluster) SetRT(n *Node, v uint64) { rs.SetRandomizedTimeout(n.Peer, v) }
 
 // MakeCC builds the config change the simulator proposes.
 func MakeCC(t uint64, id uint64) pb.ConfigChange {
